@@ -222,6 +222,19 @@ def specificity(ctx, fn):
     return attrs
 
 
+def _walk_tree(tree):
+    for op, av in tree:
+        yield op, av
+        if isinstance(av, tuple):
+            for x in av:
+                if hasattr(x, "data") or (isinstance(x, list) and x and isinstance(x[0], tuple)):
+                    yield from _walk_tree(x)
+                elif isinstance(x, list):
+                    for y in x:
+                        if hasattr(y, "data"):
+                            yield from _walk_tree(y)
+
+
 def stylesheet(ctx, fn):
     loop, (tagvar, _, elemvar) = main_loop(ctx, fn, "R14.2")
     br = None
@@ -248,8 +261,30 @@ def stylesheet(ctx, fn):
             ok = not direct and scall.lineno <= mcall.lineno and any(raw.derived(a) for a in scall.args)
     ctx.ob("R14.2", "stylesheet[comments stripped before matching]", ok, "strip calls: %d, match calls: %d" % (len(strip), len(match)), br.lineno,
            "a comment containing braces or selectors must not be read as a rule")
-    # an empty block is a valid rule: the matcher must accept it, or `.c{} rect{fill:aqua}` files the second rule under "} rect"
     from .. import rx as _rx
+
+    # what the stripping pattern takes for a comment: /* ... */ over any number of lines, braces included; never the empty text
+    if len(strip) == 1:
+        cname = [x.id for x in ast.walk(strip[0][0]) if isinstance(x, ast.Name) and x.id in ctx.m.regexes and ("/\\*" in ctx.m.regexes[x.id] or "\\/\\*" in ctx.m.regexes[x.id])]
+        ctx.need(cname, "R14.2", "comment pattern name not found")
+        cpat, cfl = ctx.m.regexes[cname[0]], ctx.m.regex_flags.get(cname[0], 0)
+        try:
+            clang = _rx.Lang(cpat, flags=cfl)
+        except _rx.Unsupported as e:
+            raise AnalysisError("R14.2", "comment pattern not interpreted: %s" % e)
+        for text, what in (("/**/", "empty comment"), ("/* .a{fill:red} */", "comment holding a rule"), ("/* a\n   b */", "comment spanning two lines"),
+                           ("/*\n.a{fill:red}\n*/", "rule commented out on lines of its own"), ("/* * / ** */", "stars and slashes inside")):
+            ctx.ob("R14.2", "stylesheet[comment pattern takes %s]" % what, clang.accepts(text), "%r %s %r" % (cpat, "matches" if clang.accepts(text) else "does not match", text), br.lineno,
+                   "a CSS comment runs from /* to the next */ whatever lies between, line ends included: what the pattern leaves behind is read as rules")
+        ctx.ob("R14.2", "stylesheet[comment pattern never empty]", not clang.nullable(), "%r" % cpat, br.lineno, "the pattern must not match the empty text")
+        if clang.accepts("// a"):
+            ctx.ob("R14.2", "stylesheet[line comment stops at the line end]", not clang.accepts("// a\n.b{fill:red}"), "%r flags %d" % (cpat, cfl), br.lineno,
+                   "a // comment that runs over the line end removes the rules on the following lines")
+        # ... and ends at the FIRST */: a lazy repeat, or a body that cannot contain */
+        lazy = any(op is _rx.sre_c.MIN_REPEAT for op, av in _walk_tree(clang.tree))
+        ctx.ob("R14.2", "stylesheet[comment ends at the first */]", lazy or not clang.accepts("/*a*/.b{fill:red}/*c*/"), "lazy repeat: %s" % lazy, br.lineno,
+               "a greedy body swallows every rule between the first and the last comment of the sheet")
+    # an empty block is a valid rule: the matcher must accept it, or `.c{} rect{fill:aqua}` files the second rule under "} rect"
 
     pat = None
     for name, p_ in ctx.m.regexes.items():
